@@ -347,8 +347,10 @@ def gen_plan(profile, seed, tier="quick"):
                 prog.append({"op": "backward", "id": new_id(), "handle": _pick(rng, cands),
                              "seed": rng.randrange(1 << 30), "retain": rng.random() < 0.4,
                              "create_graph": rng.random() < 0.1,
-                             "cot_layout": _pick(rng, ["contig", "contig", "contig", "expand",
-                                                       "expand", "transposed", "step"]),
+                             "cot_layout": _pick(rng, ["contig", "contig", "contig", "contig", "bcast",
+                                                       "bcast", "transposed", "step", "chlast",
+                                                       "chlast", "rowstep", "chanslice", "offset",
+                                                       "expand"]),
                              "out_mask": rng.randrange(0, 256) if rng.random() < 0.4 else 0,
                              "leaf_mask": rng.randrange(0, 256) if rng.random() < 0.4 else 0})
             elif k == "convert":
